@@ -385,7 +385,7 @@ func (c *Ctx) ruleTaskNeverDiscards(rr *RuleRep) {
 }
 
 // ruleTaskQueueing implements R-C01-3 (rr) and R-C03-3 (rq: queue-behind).
-func (c *Ctx) ruleTaskQueueing(rr *RuleRep, rq *RuleRep) {
+func (c *Ctx) ruleTaskQueueing(rr *RuleRep, rq *RuleRep, onlyReq ...string) {
 	a := c.retryAnchors()
 	rep := rr
 	if rep == nil {
@@ -396,6 +396,17 @@ func (c *Ctx) ruleTaskQueueing(rr *RuleRep, rq *RuleRep) {
 	}
 	validate := c.Method("BaseClient", "ValidateMessage")
 	for _, api := range retryAPIs {
+		if len(onlyReq) > 0 {
+			keep := false
+			for _, o := range onlyReq {
+				if o == api.Req {
+					keep = true
+				}
+			}
+			if !keep {
+				continue
+			}
+		}
 		f := c.Method("RetryClient", api.Req)
 		key := "(*RetryClient)." + api.Req
 		if f == nil {
